@@ -9,6 +9,8 @@ import MidnightZK.Model.C07.ShaChip
 import MidnightZK.Model.C07.Sha512Chip
 import MidnightZK.Gen.C07ShaGates
 import MidnightZK.Gen.C07Sha512Gates
+import MidnightZK.Model.C07.RipemdChip
+import MidnightZK.Gen.C07RmdGates
 /-! Line-protocol handler of property C07. -/
 namespace MidnightZK.C07.Driver
 open MidnightZK MidnightZK.C07
@@ -194,8 +196,73 @@ def spreadTab512 : Array (Nat × List (Nat × Nat)) := (Chip512.spreadTable Gen.
 
 def spreadTab : Array (Nat × List (Nat × Nat)) := (Chip.spreadTable Gen.sha256LookupLengths).toArray
 
+/-! ### RIPEMD-160 chip (emitter of `Model/C07/RipemdChip.lean`) -/
+
+/-- Rendered regions, `externals`, `outputs` (the `~Y` inputs of the `linear_combination` calls, then the
+final state words). -/
+def rmdTrace (n : Nat) : Array String × Nat × String :=
+  let t := ChipR.emit rmd160 n
+  ((t.1.map (ChipR.Region.render Gen.rmdAdvCols Gen.rmdFixedCols)).toArray, t.2.2.x,
+   ",".intercalate ((t.2.2.lcs.map (·.2) ++ t.2.1).map (Chip.Src.render Gen.rmdAdvCols)))
+
+def rmdTrace1 : Array String × Nat × String := rmdTrace 1
+def rmdTrace2 : Array String × Nat × String := rmdTrace 2
+def rmdTrace3 : Array String × Nat × String := rmdTrace 3
+
+def rmdTraceOf (n : Nat) : Option (Array String × Nat × String) :=
+  match n with
+  | 1 => some rmdTrace1
+  | 2 => some rmdTrace2
+  | 3 => some rmdTrace3
+  | _ => none
+
+def rmdRegions1 : Array ChipR.Region := (ChipR.emit rmd160 1).1.toArray
+def rmdRegions2 : Array ChipR.Region := (ChipR.emit rmd160 2).1.toArray
+def rmdRegions3 : Array ChipR.Region := (ChipR.emit rmd160 3).1.toArray
+
+/-- `rmdsat n k cells sources`: the honest witness of region `k` against `ChipR.Sat`. -/
+def rmdSat (n k : Nat) (cells srcs : String) : String :=
+  let regs := match n with
+    | 1 => rmdRegions1 | 2 => rmdRegions2 | 3 => rmdRegions3 | _ => #[]
+  match regs[k]?, parsePairs? cells, parsePairs? srcs with
+  | some r, some cs, some ss =>
+    let find (l : List (String × Nat)) (key : String) : Nat := ((l.find? (fun kv => kv.1 == key)).map (·.2)).getD 0
+    let a : Chip.Asg := fun s =>
+      match s with
+      | .reg k' off col =>
+        if k' = k then find cs s!"{off}.{Gen.rmdAdvCols.getD col 99}" else find ss (Chip.Src.render Gen.rmdAdvCols s)
+      | .const v => v
+      | .ext i => find ss s!"X{i}"
+    if (cs ++ ss).any (fun kv => kv.2 ≥ Gen.rmdModulus) then "fail:non-canonical" else
+    match ChipR.satFailures Gen.rmdModulus Gen.rmdGates a k r with
+    | [] => "ok"
+    | fs => "fail:" ++ ",".intercalate fs
+  | _, _, _ => "bad-op"
+
+def rmdSpreadTab : Array (Nat × List (Nat × Nat)) := ChipR.spreadTable.toArray
+
 def answer (line : String) : String :=
   match words line with
+  | ["rmdshape", n] =>
+    match n.toNat?.bind rmdTraceOf with
+    | some t => s!"regions={t.1.size} externals={t.2.1} outputs={t.2.2}"
+    | none => "bad-op"
+  | ["rmdregion", n, k] =>
+    match n.toNat?.bind rmdTraceOf, k.toNat? with
+    | some t, some k => t.1.getD k "no-such-region"
+    | _, _ => "bad-op"
+  | ["rmdsat", n, k, cells, srcs] =>
+    match n.toNat?, k.toNat? with
+    | some n, some k => rmdSat n k cells srcs
+    | _, _ => "bad-op"
+  | ["rmdspreadtags"] => ",".intercalate (rmdSpreadTab.toList.map (fun g => s!"{toHex g.1}:{g.2.length}"))
+  | ["rmdspreadtable", n, tag] =>
+    match n.toNat?, parseNat? tag with
+    | some n, some tag =>
+      match rmdSpreadTab[n]? with
+      | some g => if g.1 = tag then ",".intercalate (g.2.map (fun r => s!"{toHex r.1}:{toHex r.2}")) else "wrong-tag"
+      | none => "no-such-group"
+    | _, _ => "bad-op"
   | ["sha256shape", n] =>
     match n.toNat?.bind shaTraceOf with
     | some t => s!"regions={t.1.size} externals={16 * n.toNat?.getD 0} outputs={t.2}"
